@@ -118,16 +118,20 @@ def cancelTask (p : Pool) (t : Nat) : Pool :=
     if tk.unstarted then p.modTask t fun k => { k with cancelledEarly := true }
     else p.taskCancel t
 
+/-- ghost: remember the progress counters at the first cancellation of a spawner that is not running its own handle -/
+def snapReq (x : Req) : Req :=
+  if x.frame != .running && x.frame != .done && x.cancelSnap.isNone then { x with cancelSnap := some (x.created, x.pulled) } else x
+
 def metaCancel (p : Pool) (m : Nat) : Pool :=
   match p.reqs[m]? with
   | none => p
   | some r =>
     if r.outcome.isSome then p
-    else if r.frame == .waitRoom && hasPendingWaiter m p.sem.waiters then
-      ({ p with sem := { p.sem with waiters := cancelWaiterL m p.sem.waiters } } : Pool).schedMeta m
-    else if r.frame == .waitMapSem && hasPendingWaiter m r.mapSem.waiters then
-      (p.modReq m fun x => { x with mapSem := { x.mapSem with waiters := cancelWaiterL m x.mapSem.waiters } }).schedMeta m
-    else p.modReq m fun x => { x with mustCancel := true }
+    else if r.frame == .waitRoom && firstIsPending m p.sem.waiters then
+      (({ p with sem := { p.sem with waiters := cancelWaiterL m p.sem.waiters } } : Pool).modReq m snapReq).schedMeta m
+    else if r.frame == .waitMapSem && firstIsPending m r.mapSem.waiters then
+      (p.modReq m fun x => snapReq { x with mapSem := { x.mapSem with waiters := cancelWaiterL m x.mapSem.waiters } }).schedMeta m
+    else p.modReq m fun x => snapReq { x with mustCancel := true }
 
 /-! ### synchronous API -/
 
